@@ -167,6 +167,53 @@ SchemaTopTiles ==
      Tiles(TopRows, 1, 0) = Len(out)
 
 ---------------------------------------------------------------------------
+(* C03, second half: what an ε-copy deserialization allocates does not     *)
+(* depend on the lengths of the sequences it returns as borrowed slices.   *)
+RECURSIVE RepSeq(_, _)
+RepSeq(s, k) == IF k = 0 THEN <<>> ELSE s \o RepSeq(s, k - 1)
+\* Scale(T, v, k, m): the same skeleton with every *borrowed* sequence k times as long
+\* (m = "eps": the position is ε-copied; "fs": fully copied, left alone)
+RECURSIVE Scale(_, _, _, _)
+ScaleFields(fields, vs, k, m) ==
+  [i \in 1..Len(fields) |-> Scale(fields[i].ty, vs[i], k, IF m = "eps" /\ fields[i].p > 0 THEN "eps" ELSE "fs")]
+Scale(T, v, k, m) ==
+  IF m # "eps" THEN v
+  ELSE CASE T.k \in {"string", "boxstr"} -> RepSeq(v, k)
+         [] T.k \in {"vec", "boxslice"} ->
+              IF IsZC(T.elem) THEN RepSeq(v, k) ELSE [i \in 1..Len(v) |-> Scale(T.elem, v[i], k, m)]
+         [] T.k = "array" -> IF IsZC(T.elem) THEN v ELSE [i \in 1..Len(v) |-> Scale(T.elem, v[i], k, m)]
+         [] T.k \in {"option", "bound"} -> IF Len(v) = 1 THEN v ELSE <<v[1], Scale(T.elem, v[2], k, m)>>
+         [] T.k = "cflow" -> <<v[1], Scale(IF v[1] = 0 THEN T.b ELSE T.c, v[2], k, m)>>
+         [] T.k = "struct" /\ ~T.zc -> ScaleFields(T.fields, v, k, m)
+         [] T.k = "enum" /\ ~T.zc -> <<v[1]>> \o ScaleFields(T.variants[v[1] + 1].fields, Tail(v), k, m)
+         [] OTHER -> v
+\* the allocations of the ε-copy machine as a pure function: vectors of the deep skeleton (element
+\* counts) and the fully copied fields
+RECURSIVE AllocPred(_, _, _)
+AllocFields(fields, vs, m) ==
+  Cat([i \in 1..Len(fields) |-> AllocPred(fields[i].ty, vs[i], IF m = "eps" /\ fields[i].p > 0 THEN "eps" ELSE "fs")])
+AllocPred(T, v, m) ==
+  CASE T.k \in {"string", "boxstr"} -> IF m = "eps" THEN <<>> ELSE <<Len(v)>>
+    [] T.k \in {"vec", "boxslice"} ->
+         IF IsZC(T.elem) THEN (IF m = "eps" THEN <<>> ELSE <<Len(v)>>)
+         ELSE <<Len(v)>> \o Cat([i \in 1..Len(v) |-> AllocPred(T.elem, v[i], m)])
+    [] T.k = "array" -> IF IsZC(T.elem) THEN <<>> ELSE Cat([i \in 1..Len(v) |-> AllocPred(T.elem, v[i], m)])
+    [] T.k \in {"option", "bound"} -> IF Len(v) = 1 THEN <<>> ELSE AllocPred(T.elem, v[2], m)
+    [] T.k = "cflow" -> AllocPred(IF v[1] = 0 THEN T.b ELSE T.c, v[2], m)
+    [] T.k = "struct" /\ ~T.zc -> AllocFields(T.fields, v, m)
+    [] T.k = "enum" /\ ~T.zc -> AllocFields(T.variants[v[1] + 1].fields, Tail(v), m)
+    [] OTHER -> <<>>
+\* the machine allocates exactly the skeleton (the type name of the header is read as a String: one more)
+AllocsAreSkeleton ==
+  (phase = "done" /\ rstatus = "ok") =>
+     allocs = (IF case.mode = "pub" THEN <<case.nameLen>> ELSE <<>>) \o AllocPred(Norm(case.t), case.v, "eps")
+\* ... and the skeleton does not change when the borrowed payload is scaled
+ScaleInvariant ==
+  (phase = "ser" /\ pc = 1) =>
+     \A k \in {2, 5} : AllocPred(Norm(case.t), Scale(Norm(case.t), case.v, k, "eps"), "eps")
+                        = AllocPred(Norm(case.t), case.v, "eps")
+
+---------------------------------------------------------------------------
 (* The behaviour handed to the replay harness (one JSON line per terminal state) *)
 Behaviour ==
   [key |-> Key(case.t), rkey |-> Key(Norm(case.t)), v |-> case.v, mode |-> case.mode,
@@ -175,7 +222,9 @@ Behaviour ==
    rows |-> rows,
    full |-> fullRes,
    eps |-> [st |-> rstatus, detail |-> rdetail, val |-> IF rstatus = "ok" THEN vals ELSE <<>>,
-            rpos |-> rpos, borrows |-> borrows, allocs |-> allocs]]
+            rpos |-> rpos, borrows |-> borrows, allocs |-> allocs],
+   vscaled |-> IF Scale(Norm(case.t), case.v, 2, "eps") = case.v THEN <<>>
+               ELSE <<Scale(Norm(case.t), case.v, 3, "eps"), Scale(Norm(case.t), case.v, 16, "eps")>>]
 Emit == phase = "done" => PrintT(ToJson(Behaviour))
 
 =============================================================================
